@@ -43,6 +43,11 @@ func main() {
 		if d := os.Getenv("GOVC_REPO"); d != "" {
 			o.repoDir = d
 		}
+		if d := os.Getenv("GOVC_VERIF"); d != "" {
+			// a snapshot of /verif (spec, baseline, known findings, replay harnesses): used when
+			// seeded changes are re-checked in a scratch copy while /verif is being edited
+			o.verifDir = d
+		}
 		code := runCheck(o)
 		cleanupScratch()
 		os.Exit(code)
